@@ -99,16 +99,24 @@ func c02CheckDelivery(m *obs.Msg, list []msg.ACS, foreign []string, bad func(str
 
 func c02Judge(p ssoP) c02Verdict {
 	v := c02Verdict{Detail: map[string]any{}}
-	bad := func(c string) { v.Clauses = append(v.Clauses, c) }
 	w, req, t := ssoBuild(p)
 	o := ssoRun(w, req)
 	if o.Rep.Panic != "" {
 		v.Classes = append(v.Classes, "sso:blocked_by_panic")
 		return v
 	}
+	c02JudgeSSO(&v, t, o, "")
+	c02FollowThrough(&v, w, t)
+	return v
+}
+
+// c02JudgeSSO: clauses (i)-(iii) for one SSO reply (o.Rep.Calls = the storage calls made for this request); t.ACSList is
+// the list registered for SP A at the time of the request.
+func c02JudgeSSO(v *c02Verdict, t *ssoTruth, o ssoOutcome, prefix string) {
+	bad := func(c string) { v.Clauses = append(v.Clauses, prefix+c) }
 	m := obs.Decode(o.Rep)
-	v.Classes = append(v.Classes, "sso:"+m.Kind)
-	v.Detail["sso"] = obs.Describe(o.Rep, m)
+	v.Classes = append(v.Classes, prefix+"sso:"+m.Kind)
+	v.Detail[prefix+"sso"] = obs.Describe(o.Rep, m)
 	// the issuer in effect for error replies is unknown to the oracle in general: accept any entry registered
 	// for any issuer present in the message
 	var allowed []msg.ACS
@@ -144,7 +152,11 @@ func c02Judge(p ssoP) c02Verdict {
 			bad("persisted-under-a-service-provider-not-named-by-the-issuer")
 		}
 	}
-	// follow-through: complete every persisted record and call back
+}
+
+// c02FollowThrough: complete every persisted record and call back: the stored pair is used exactly.
+func c02FollowThrough(v *c02Verdict, w *world.World, t *ssoTruth) {
+	bad := func(c string) { v.Clauses = append(v.Clauses, c) }
 	for _, id := range w.Store.RequestIDs() {
 		r := w.Store.Request(id)
 		w.Store.AddUser(&world.User{ID: "u-alice", Username: "alice", Email: "alice@example.com"})
@@ -163,6 +175,59 @@ func c02Judge(p ssoP) c02Verdict {
 			}
 		}
 	}
+}
+
+// ---- registration changes between two requests on ONE provider ------------------------------------------------------------
+
+var c02MovedACS = []msg.ACS{{msg.BindPost, "https://sp-a-moved.example/acs/post", "0", "true"}, {msg.BindRedirect, "https://sp-a-moved.example/acs/redirect", "1", ""}}
+
+var c02HistModes = []string{"unregistered", "moved", "unregistered+lookup-error", "moved+lookup-error-once-before"}
+
+// c02History: the request p is handled once; then SP A's registration is removed ("unregistered") or replaced by a list of
+// other consumer endpoints ("moved"); then the same request is sent again on the same provider. The second request is
+// judged against the registration in force when it was made: nothing may be persisted for, or delivered to, an entry
+// that is no longer registered. "+lookup-error": the storage answers the service-provider lookup of the second request
+// with a plain error instead of not-found; "+lookup-error-once-before": a transient lookup failure happened between the two.
+func c02History(p ssoP, mode string) c02Verdict {
+	v := c02Verdict{Detail: map[string]any{}}
+	w, req, t := ssoBuild(p)
+	o1 := ssoRun(w, req)
+	if o1.Rep.Panic != "" {
+		v.Classes = append(v.Classes, "history:blocked_by_panic")
+		return v
+	}
+	a := msg.SPA()
+	a.AuthnRequestsSigned = p.SPFlag
+	if p.SPCert == "none" {
+		a.Certs = nil
+	}
+	_, req2, t2 := ssoBuild(p)
+	switch {
+	case strings.HasPrefix(mode, "unregistered"):
+		w.Store.UnregisterSP(a.EntityID)
+		t2.ACSList = nil
+	case strings.HasPrefix(mode, "moved"):
+		a.ACS = c02MovedACS
+		if _, err := w.Store.RegisterSP("app-a", a.XML()); err != nil {
+			panic(err)
+		}
+		t2.ACSList = c02MovedACS
+	}
+	switch {
+	case strings.HasSuffix(mode, "+lookup-error"):
+		w.Store.FaultNext("GetEntityByID", 1, world.FaultError)
+	case strings.HasSuffix(mode, "+lookup-error-once-before"):
+		w.Store.FaultNext("GetEntityByID", 1, world.FaultError)
+		_, r0, _ := ssoBuild(p)
+		ssoRun(w, r0)
+	}
+	o2 := ssoRun(w, req2)
+	if o2.Rep.Panic != "" {
+		v.Classes = append(v.Classes, "history:blocked_by_panic")
+		return v
+	}
+	c02JudgeSSO(&v, t2, o2, "after-registration-change:")
+	c02FollowThrough(&v, w, t)
 	return v
 }
 
@@ -240,6 +305,7 @@ func c02JudgeInjected(c c02Injected) c02Verdict {
 
 type c02Replay struct {
 	SSO      *ssoP        `json:"sso,omitempty"`
+	History  string       `json:"history,omitempty"`
 	Injected *c02Injected `json:"injected,omitempty"`
 	Logout   *loP         `json:"logout,omitempty"`
 }
@@ -259,6 +325,10 @@ func runC02(ctx Ctx) int {
 		}
 		var v c02Verdict
 		switch {
+		case strings.HasPrefix(rp.History, "logout:"):
+			v = c02Verdict{Clauses: c02LogoutHistory(strings.TrimPrefix(rp.History, "logout:")), Detail: map[string]any{}}
+		case rp.SSO != nil && rp.History != "":
+			v = c02History(*rp.SSO, rp.History)
 		case rp.SSO != nil:
 			v = c02Judge(*rp.SSO)
 		case rp.Injected != nil:
@@ -337,6 +407,26 @@ func runC02(ctx Ctx) int {
 		p := it.p
 		report(c02Verdict{Classes: []string{"logout:" + cv.Class}, Clauses: c02LogoutClauses(cv.Clauses), Detail: cv.Detail}, "logout", it.labels, c02Replay{Logout: &p})
 	})
+	// D: registration changes between two requests (every k<=2 shape x 4 modes)
+	var hist []item
+	c02Space.EnumK(2, func(vec []int) bool {
+		p := ssoFromVec(c02Space, vec)
+		if c02Valid(p) && p.Persist == "" {
+			hist = append(hist, item{p, c02Space.Labels(vec)})
+		}
+		return true
+	})
+	_, c4 := parallel(len(hist)*len(c02HistModes), deadline, func(i int) {
+		it, mode := hist[i/len(c02HistModes)], c02HistModes[i%len(c02HistModes)]
+		p := it.p
+		report(c02History(p, mode), "sso+callback", append([]string{"history=request ; registration " + mode + " ; same request"}, it.labels...), c02Replay{SSO: &p, History: mode})
+	})
+	c1 = c1 && c4
+	// logout: SLO list replaced / SP removed between two logout requests
+	for _, mode := range []string{"unregistered", "moved"} {
+		cv := c02LogoutHistory(mode)
+		report(c02Verdict{Classes: []string{"logout-history:" + mode}, Clauses: cv, Detail: map[string]any{}}, "logout", []string{"history=logout ; registration " + mode + " ; logout"}, c02Replay{History: "logout:" + mode})
+	}
 	run.Sample(items[0].p)
 	run.Sample(items[len(items)/2].p)
 	run.Sample(inj[len(inj)/2])
@@ -357,4 +447,35 @@ func c02LogoutClauses(cl []string) []string {
 		}
 	}
 	return out
+}
+
+
+// c02LogoutHistory: logout(A) ; SP A unregistered / its SLO list replaced ; logout(A). The second response goes to the first
+// SLO location registered THEN (or into the body when the SP is gone).
+func c02LogoutHistory(mode string) []string {
+	w, req, _ := loBuild(loP{})
+	w.Do(req)
+	want := ""
+	a := msg.SPA()
+	switch mode {
+	case "unregistered":
+		w.Store.UnregisterSP(a.EntityID)
+	case "moved":
+		a.SLO = []msg.SLO{{msg.BindPost, "https://sp-a-moved.example/slo"}}
+		if _, err := w.Store.RegisterSP("app-a", a.XML()); err != nil {
+			panic(err)
+		}
+		want = "https://sp-a-moved.example/slo"
+	}
+	_, req2, _ := loBuild(loP{})
+	rep := w.Do(req2)
+	m := obs.Decode(rep)
+	var bad []string
+	switch m.Kind {
+	case obs.KindForm, obs.KindRedirect:
+		if want == "" || !sameTarget(m.Target, want) {
+			bad = append(bad, "logout-history:posted-to-something-else-than-the-first-slo-location-registered-now")
+		}
+	}
+	return bad
 }
